@@ -220,6 +220,13 @@ def _judge(ctx, oa, b, cfg, tr, bi, site, fams):
         r = _expect_of_uniform_index(b, tr, t)
         if r:
             return 'discharged', 'expect-of-get(uniform-index)', r
+        if is_step and cfg.loop_depth(bi) == 0:
+            # state.score().expect(..) / unwrap() is the same precondition as `match state.score() { None => panic!() }`
+            so = tr.origin(t['args'][0])
+            if so['o'] == 'call' and is_trait_call(so['term'], 'State', 'score') and not so['p']:
+                outer = oa.outer or oa.inner
+                before = outer['header'] in cfg.reachable_from([bi])
+                return 'table', ('stepping', 'begin_panic', 'guard:initial-score-none' if before else 'guard:final-score-none'), ''
         if b.impl_trait and f.norm(b.impl_trait).endswith('cmp::Ord') and b.fn_name == 'cmp':
             o = tr.origin(t['args'][0])
             if o['o'] == 'call' and call_matches(o['term'], 'partial_cmp'):
@@ -447,11 +454,67 @@ def _const_values(ctx, b, tr, op, depth=0):
                 continue
             n += 1
             r = _const_values(ctx, cb, Tracer(cb), t['args'][pi], depth + 1)
+            if isinstance(r, str) and not cb.is_closure:
+                r2 = _values_by_execution(ctx, cb, t, pi)
+                if r2 is not None:
+                    r = r2
             if isinstance(r, str):
                 return 'a caller (%s) passes a non-constant value (%s)' % (cb.path, r)
             vals += r
         return vals if n else 'no call sites found'
+    if o['o'] in ('call', 'rvalue') and not o['p'] and o.get('l') is not None:
+        # a value computed by a (spliced) helper or a workspace function: evaluate that function symbolically; if every
+        # path returns a number, those are the values
+        hp = b.locals[o['l']].get('inl')
+        hb = None
+        if hp:
+            hb = f.helpers.get(f.norm(hp)) or f.body(hp)
+        elif o['o'] == 'call':
+            hb = f.body_of_fnconst(o['term']['func'])
+        if hb is not None and not hb.is_closure:
+            from ..sym import SymEx, SYM
+            sx = SymEx(f)
+            try:
+                outs = sx.run(hb, [SYM(hb.local_name(i) or 'arg%d' % i) for i in hb.args()])
+            except Exception:
+                outs = []
+            vals = []
+            for oc in outs:
+                r = sx.deep(oc.st, oc.ret)
+                if isinstance(r, tuple) and r[0] == 'num' and r[1].denominator == 1:
+                    vals.append(int(r[1]))
+                else:
+                    vals = None
+                    break
+            if vals and not sx.aborted:
+                return vals
     return 'operand is %s' % o['o']
+
+
+def _values_by_execution(ctx, cb, term, pi):
+    """Every value argument `pi` of the call `term` in cb can take, by executing cb symbolically up to that call (tables,
+    find/map_or, matches evaluated by their definitions); None unless all of them are integers."""
+    from ..nest import Nest
+    try:
+        n = Nest(ctx.facts, cb, yields=False)
+        sp = term.get('span') or {}
+        sites = [bi for bi, tt in n.b.calls() if tt['func'].get('fn') == term['func'].get('fn') and
+                 (tt.get('span') or {}).get('line') == sp.get('line') and (tt.get('span') or {}).get('col') == sp.get('col')]
+        if len(sites) != 1:
+            return None
+        sx, outs = n.reach(sites[0])
+        if not outs or sx.aborted:
+            return None
+        vals = []
+        for o in outs:
+            v = n.arg_values(sx, o, sites[0])[pi]
+            if isinstance(v, tuple) and v[0] == 'num' and v[1].denominator == 1:
+                vals.append(int(v[1]))
+            else:
+                return None
+        return vals
+    except Exception:
+        return None
 
 
 def _const_param(ctx, b, tr, op, label):
@@ -757,6 +820,22 @@ def _nonempty_basis(ctx, im):
                             return True, 'append(%s) with an unconditional push' % cb.path
         if call_matches(tt, 'Vec::<T, A>::push') and all(cfg.dominates(bi, r) for r in rets) and cfg.loop_depth(bi) == 0:
             return True, 'unconditional push'
+    # value-based: the function is loop-free (iterator chain) and every path returns a sequence with a known first element
+    from ..sym import SymEx, SYM
+    if not cfg.loops():
+        sx = SymEx(f)
+        try:
+            outs = sx.run(im, [SYM('self')])
+        except Exception:
+            outs = []
+        if outs and not sx.aborted:
+            n_ok = 0
+            for o in outs:
+                r = sx.deep(o.st, o.ret)
+                if isinstance(r, tuple) and r[0] in ('seq', 'seqmin') and len(r[1]) >= 1:
+                    n_ok += 1
+            if n_ok == len(outs):
+                return True, 'every path returns a sequence that starts with a known element'
     return False, 'no unconditional push/append found'
 
 
